@@ -207,6 +207,8 @@ package zenodb
 //@ func (*DB).doProcessIterations
 //@   requires len(iterations) > 0
 //@   modifies *
+//@   capture scanErr Iface = result 1 of call (*zenodb.rowStore).iterate
+//@   at call send:errCh assert every_iteration_gets_the_scan_error: captured(scanErr) && callarg0 == scanErr
 //@   at call (*zenodb.rowStore).iterate assert memstore_if_any_wants_it: callarg3 == (exists j in 0..len(iterations) :: old(iterations[j].includeMemStore))
 //@   loop 0 invariant flags_same: forall j in 0..len(iterations) :: iterations[j] == old(iterations[j]) && iterations[j].includeMemStore == old(iterations[j].includeMemStore)
 //@   loop 0 invariant bounds: 0 <= $i && $i <= len(iterations)
@@ -224,3 +226,38 @@ package zenodb
 //@   modifies *
 //@   capture memLen Int = result 0 of call bytetree.Tree).Length
 //@   at call (*zenodb.rowStore).writeOffsets assert offsets_only_when_nothing_to_flush: captured(memLen) && memLen == 0
+//@   ensures nothing_flushed_returns_nil: captured(memLen) && memLen == 0 ==> result == nil
+
+// C18: the insert loop writes into `ms`; scans copy `rs.memStore`. Whenever the loop replaces its memstore outside a
+// flush (an ALTER arriving while the memstore is empty), the replacement is published under the lock before the lock is
+// released - otherwise points processed afterwards are invisible to every scan until the next flush.
+//@ func (*rowStore).processInserts
+//@   modifies *
+//@   at call sync.RWMutex).Unlock inscope assert replacement_published: len(fields) >= 0 && rs.memStore == ms
+//@   capture applied Int = result 0 of call bytetree.Tree).Update
+//@   at call sync.RWMutex).Unlock inscope assert keyed_insert_is_applied: insert.key != nil ==> captured(applied)
+
+// C17: only iterations on one and the same table are coalesced into a batch: doProcessIterations serves the whole batch
+// from the first iteration's table.
+//@ func (*DB).coalesceIteration
+//@   modifies *
+//@   at call send:coalescedIterations assert one_table_per_batch: len(callarg0) > 0 && (forall j in 0..len(callarg0) :: callarg0[j].t == it.t)
+//@   loop 1 modifies nothing
+//@   loop 0 invariant sep: obj(iterations) != obj(iterationsForOtherTables) && obj(iterations) != 0
+//@   loop 0 invariant same_table: len(iterations) > 0 && (forall j in 0..len(iterations) :: iterations[j].t == it.t)
+
+// C02: every WAL entry handed to the insert loop carries its own offset value (the reader goes on reading, and the
+// memstore keeps the offset it is given): the offset slice sent is the one wal.Offset() returned for this entry.
+//@ func (*table).processWALInserts
+//@   modifies *
+//@   callback Panic noreturn
+//@   capture entryOffset Slice = result 0 of call wal.Reader).Offset
+//@   at call send:in assert own_offset_per_entry: captured(entryOffset) && callarg0.offset == entryOffset && callarg0.source == 0
+
+// C18: a scan's view is one instant of the table: the filestore it will read and the memstore copy are taken inside the
+// same read-locked section.
+//@ func (*rowStore).iterate
+//@   modifies *
+//@   capture msCopy Int = result 0 of call (*zenodb.memstore).copy
+//@   at call (*zenodb.memstore).copy assert file_read_in_the_same_section: fs == rs.fileStore
+//@   at call sync.RWMutex).RUnlock assert memstore_copied_before_unlock: fs != nil || fs == nil ==> (includeMemStore ==> captured(msCopy))
